@@ -7,6 +7,7 @@ import (
 	"testing"
 	"time"
 
+	"github.com/rulego/streamsql/logger"
 	"verifharness/internal/et"
 	"verifharness/internal/run"
 )
@@ -28,6 +29,7 @@ func TestProbe(t *testing.T) {
 	if os.Getenv("PROBE") == "" {
 		t.Skip()
 	}
+	logger.SetDefault(logger.NewLogger(logger.WARN, os.Stdout))
 	qs := strings.Split(os.Getenv("PROBE"), ";;")
 	for _, sel := range qs {
 		sql := strings.Replace(sel, "@W", "TumblingWindow('10s') "+et.With("ms", 0, 0), 1)
